@@ -71,13 +71,18 @@ func (u *Universe) smtText(o *Obligation, forCVC5 bool, wantModel bool) string {
 		}
 	}
 	for _, a := range u.axioms {
-		if o.Relaxed && (strings.Contains(a, "forall") || strings.Contains(a, "exists")) {
+		if o.Relaxed && (strings.Contains(a, "s.cat") || strings.Contains(a, "s.sub")) && !strings.Contains(text, "s.cat") && !strings.Contains(text, "s.sub") {
 			continue
 		}
 		b.WriteString("(assert " + a + ")\n")
 	}
 	for _, a := range la {
 		b.WriteString("(assert " + a + ")\n")
+	}
+	if o.Relaxed {
+		// candidate-model search: strings are short, and short strings with equal bytes are equal (so that the
+		// Go values built from the model are distinct exactly when the model's strings are)
+		b.WriteString("(assert (forall ((a Str) (b Str)) (! (=> (and (= (s.len a) (s.len b)) (<= (s.len a) 3) (= (s.at a 0) (s.at b 0)) (= (s.at a 1) (s.at b 1)) (= (s.at a 2) (s.at b 2))) (= a b)) :pattern ((s.len a) (s.len b)))))\n")
 	}
 	b.WriteString(text)
 	b.WriteString("(check-sat)\n")
@@ -324,4 +329,28 @@ func sliceObligation(o *Obligation, hops int) *Obligation {
 	}
 	n.Result = nil
 	return &n
+}
+
+// SolveAllQuick: single back end (z3-new), short timeout; used for candidate-model search only.
+func (u *Universe) SolveAllQuick(obls []*Obligation, dir string, timeoutS int, par int) {
+	os.MkdirAll(dir, 0o755)
+	sem := make(chan struct{}, par)
+	var wg sync.WaitGroup
+	for _, o := range obls {
+		o := o
+		wg.Add(1)
+		sem <- struct{}{}
+		go func() {
+			defer wg.Done()
+			defer func() { <-sem }()
+			f := filepath.Join(dir, sanitize(o.Name)+".smt2")
+			os.WriteFile(f, []byte(u.smtText(o, false, true)), 0o644)
+			st, out, ms := runSolver(context.Background(), solvers[0], f, timeoutS)
+			o.Result = &SolveResult{Status: st, Backend: "z3-new", Ms: ms, Output: out, File: f, All: map[string]string{}}
+			if st == "sat" {
+				o.Result.Model = out
+			}
+		}()
+	}
+	wg.Wait()
 }
